@@ -303,6 +303,21 @@ Theorem C15_precision_times_cov :
 Proof. exact precision_times_cov. Qed.
 Print Assumptions C15_precision_times_cov.
 
+(* life cycle of the refusal clause: for a Gaussian given by prec / sqrtcov / sqrtprec the next MAP / direct sampling is a
+   value iff compute_cov() was called since the last re-assignment of the defining attribute -- after ANY history; reads,
+   refused calls and successful estimates do not change that; a re-assignment forgets whatever came before *)
+Theorem C15_refusal_life_cycle :
+  forall (c : bool) (ops : list life_op),
+  (life_run c (ops ++ [LMap]) = life_run c ops ++ [if life_state c ops then LValue else LRefused] /\
+   life_run c (ops ++ [LSample]) = life_run c ops ++ [if life_state c ops then LValue else LRefused]) /\
+  ((forall o, In o ops -> o = LMap \/ o = LSample \/ o = LRead) -> life_state c ops = c) /\
+  (forall ops2, life_state c (ops ++ LReassign :: ops2) = life_state false ops2).
+Proof.
+  intros c ops. split; [exact (life_next_estimate c ops)|]. split; [exact (life_state_frame c ops)|].
+  intros ops2. exact (life_state_reassign c ops ops2).
+Qed.
+Print Assumptions C15_refusal_life_cycle.
+
 (* the whole cascade of sample_posterior (joint = target still a JointDistribution, s = hasattr(prior,
    "sqrtprecTimesMean"), q = hasattr(likelihood.distribution, "sqrtprec")): Gibbs iff joint; the direct route iff not joint
    and the closed-form condition; what each later choice implies about the posterior's structure *)
